@@ -9,8 +9,9 @@ C08 — model of the bounds-checked primitive readers of the CQL wire format.
 A reader is a TOTAL function `M α = St → Outcome α × St`.  The state carries the remaining input and two ghost
 counters: `alloc` (sum of the element counts passed to `Vec::with_capacity` / `HashMap::with_capacity`, exactly where
 the Rust code requests them, after the `fix:` commits) and `depth` (deepest recursion level reached by the type
-parsers).  There is no `panic` / `diverge` outcome: every function below is defined by structural recursion, which is
-the "terminates, returns a value or an error" half of the property for the modelled code.
+parsers).  Every function below is defined by structural recursion (no `diverge` outcome: that is the "terminates"
+half of the property for the modelled code).  `Outcome` has a `panic` constructor, produced exactly where the Rust
+code performs a partial operation whose precondition does not hold; `Props/C08.no_panic` proves it unreachable.
 
 Error kinds are short strings (`eof` = `io::ErrorKind::UnexpectedEof` from `read_u8/u16/i32/i64`, `few` =
 `TooFewBytesReceived`, `utf8`, `negint` = `TryFromIntError`, `inetlen`, `consistency`), prefixed by the field tag of
@@ -105,8 +106,16 @@ def readIntLength : M Nat := do
   let v ← readInt
   if v < 0 then fail "negint" else pure v.toNat
 
-/-- `read_raw_bytes(count, buf)`. -/
-def readRaw (n : Nat) : M Bytes := takeN n "few"
+/-- `buf.split_at(count)`: panics when `count > buf.len()`. -/
+def splitAtP (n : Nat) : M Bytes := fun s =>
+  if n > s.buf.length then (.panic "split_at", s)
+  else (.ok (s.buf.take n), { s with buf := s.buf.drop n })
+
+/-- `read_raw_bytes(count, buf)`: the length guard (`TooFewBytesReceived`), then `split_at` — guard and partial
+operation are separate steps, as in the code (`readRaw_eq_takeN`: together they never panic). -/
+def readRaw (n : Nat) : M Bytes := do
+  let len ← remaining
+  if len < n then fail "few" else splitAtP n
 
 /-- `str::from_utf8` (Lean's strict validator: no surrogates, no overlongs, ≤ U+10FFFF; validated differentially). -/
 def utf8ok (bs : Bytes) : Bool := (ByteArray.mk bs.toArray).validateUTF8
